@@ -117,6 +117,8 @@ type partA struct {
 	inexpr   map[string]int64
 	rejected map[string]int64
 	merged   int64
+	alone    map[string]uint64
+	special  []string // label names the decoder sources treat specially (ingestref.SpecialNames)
 	found    map[string]int
 	sets     int
 }
@@ -388,6 +390,13 @@ func runPartA(r *ev.Run) {
 			}
 		}
 	}
+	if names, ctxs, err := ir.SpecialNames(ev.Repo()); err == nil {
+		a.special = names
+		r.Extra["a2_special_label_names_collected_from_source"] = names
+		r.Extra["a2_context_values_collected_from_source"] = ctxs
+	} else {
+		ev.Fatal("cannot collect the special label names from the decoder sources: %v", err)
+	}
 	runPartA2(r, a)
 	r.Extra["a_label_sets"] = a.sets
 	r.Extra["a_names"] = names
@@ -454,6 +463,9 @@ type replayA2 struct {
 	Streams [][]int `json:"streams"`           // per stream: label set index (0 or 1) followed by the instant indexes of its entries
 	Split   []int   `json:"split,omitempty"`   // [n, k]: one series with n entries, entry k is the first of the next day
 	Reorder bool    `json:"reorder,omitempty"` // second occurrence of a label set is written in the other label order
+	Special string  `json:"special,omitempty"` // a label name the code treats specially (collected from the decoder sources) ...
+	Pos     int     `json:"pos,omitempty"`     // ... inserted first (0) / in the middle (1) / last (2) among the plain labels
+	Fields  int     `json:"fields,omitempty"`  // influx: the point carries this many numeric fields on one line (one row-builder call each)
 }
 
 var a2Instants = []int64{
@@ -463,9 +475,18 @@ var a2Instants = []int64{
 	1704974400, // D+1    2024-01-11T12:00:00Z
 }
 
-func a2Labels(sp *speaker, which int, reorder bool) []ir.Label {
+func a2Labels(sp *speaker, which int, reorder bool, special string, pos int) []ir.Label {
 	l := append([]ir.Label{}, sp.Deco...)
-	l = append(l, ir.Label{Name: sp.MapName("a"), Value: []string{"x", "y"}[which]}, ir.Label{Name: sp.MapName("b_1"), Value: "z"})
+	plain := []ir.Label{{Name: sp.MapName("a"), Value: []string{"x", "y"}[which]}, {Name: sp.MapName("b_1"), Value: "z"}}
+	if special != "" {
+		val := "sv"
+		if special == "__ttl_days__" {
+			val = "7"
+		}
+		at := []int{0, 1, 2}[pos]
+		plain = append(plain[:at:at], append([]ir.Label{{Name: special, Value: val}}, plain[at:]...)...)
+	}
+	l = append(l, plain...)
 	if reorder {
 		for i, j := 0, len(l)-1; i < j; i, j = i+1, j-1 {
 			l[i], l[j] = l[j], l[i]
@@ -484,15 +505,22 @@ func a2Build(sp *speaker, rp replayA2) []ir.Stream {
 	var streams []ir.Stream
 	if len(rp.Split) == 2 {
 		n, k := rp.Split[0], rp.Split[1]
-		st := ir.Stream{Labels: a2Labels(sp, 0, false)}
+		st := ir.Stream{Labels: a2Labels(sp, 0, false, rp.Special, rp.Pos)}
 		for i := 0; i < n; i++ { // one entry per second, entry k is the first after UTC midnight
 			st.Entries = append(st.Entries, mk(1704931200+int64(i-k), i))
 		}
 		return []ir.Stream{st}
 	}
+	if rp.Fields > 0 { // one Influx point with several numeric fields: one stream per field, same instant
+		for f := 0; f < rp.Fields; f++ {
+			l := append(a2Labels(sp, 0, false, rp.Special, rp.Pos), ir.Label{Name: "__name__", Value: fmt.Sprintf("f%d", f+1)})
+			streams = append(streams, ir.Stream{Labels: l, Entries: []ir.Entry{{TsNs: a2Instants[0] * 1e9, Value: float64(f) + 1.5, Type: ir.TypeMetric}}})
+		}
+		return streams
+	}
 	seen := map[int]int{}
 	for _, s := range rp.Streams {
-		st := ir.Stream{Labels: a2Labels(sp, s[0], rp.Reorder && seen[s[0]]%2 == 1)}
+		st := ir.Stream{Labels: a2Labels(sp, s[0], rp.Reorder && seen[s[0]]%2 == 1, rp.Special, rp.Pos)}
 		seen[s[0]]++
 		for i, ii := range s[1:] {
 			st.Entries = append(st.Entries, mk(a2Instants[ii], i))
@@ -504,12 +532,16 @@ func a2Build(sp *speaker, rp replayA2) []ir.Stream {
 
 func (a *partA) evalA2(sp *speaker, rp replayA2) {
 	streams := a2Build(sp, rp)
-	body, err := sp.P.Render(streams, sp.Opt)
+	opt := sp.Opt
+	if rp.Fields > 0 {
+		opt.MergeFields = true
+	}
+	body, err := sp.P.Render(streams, opt)
 	if err != nil {
 		a.inexpr["a2:"+sp.Name]++
 		return
 	}
-	out := sp.P.Parse(body, sp.Opt, nil)
+	out := sp.P.Parse(body, opt, nil)
 	if out.Err != nil {
 		a.rejected[fmt.Sprintf("a2 %s %d", sp.Name, out.Status)]++
 		return
@@ -531,6 +563,66 @@ func (a *partA) evalA2(sp *speaker, rp replayA2) {
 			}
 		}
 	}
+	// identity inside one request: every row of a stream carries the fingerprint the same label set gets when it is
+	// said alone with one entry, however many times the decoder calls the row builder for it; and every stored label
+	// document is JSON for the stored set of one of the streams (a duplicated key is not)
+	type ft struct {
+		fp uint64
+		ts int64
+	}
+	want := map[ft]int{}
+	docs := map[string]bool{}
+	identityOK := true
+	for _, st := range streams {
+		fp, ok := a.aloneFP(sp, st.Labels)
+		if !ok {
+			identityOK = false
+			break
+		}
+		for _, e := range st.Entries {
+			want[ft{fp, e.TsNs}]++
+		}
+		docs[ir.LabelsKey(sp.Stored(st.Labels))] = true
+		docs[ir.LabelsKey(normUTF8(sp.Stored(st.Labels)))] = true
+	}
+	if identityOK {
+		for _, r := range out.Rows() {
+			if want[ft{r.FP, r.TsNs}] == 0 {
+				cl := "fingerprint_differs_between_calls_for_one_label_set:" + sp.Name
+				a.found[cl]++
+				if a.found[cl] <= 2 {
+					a.r.Violate(cl, fmt.Sprintf("%s: a row at %s carries fingerprint %d, which is not the fingerprint of any label set of the request said alone; request %+v",
+						sp.Name, time.Unix(0, r.TsNs).UTC().Format(time.RFC3339), r.FP, rp), rp)
+				}
+				a.r.Outcome("a2:identity_split")
+				return
+			}
+			want[ft{r.FP, r.TsNs}]--
+		}
+		for _, c := range out.Chunks {
+			if c.Ts == nil {
+				continue
+			}
+			for _, doc := range c.Ts.MLabels {
+				d, err := ir.StrictStringObject([]byte(doc))
+				if err == nil && docs[ir.LabelsKey(d)] {
+					continue
+				}
+				if err != nil {
+					if g, ok := ir.GoQuotedObject(doc); ok && docs[ir.LabelsKey(g)] {
+						continue // D3 (Go quoting) is judged in part a
+					}
+				}
+				cl := "labels_doc_of_request_not_a_sent_label_set:" + sp.Name
+				a.found[cl]++
+				if a.found[cl] <= 2 {
+					a.r.Violate(cl, fmt.Sprintf("%s: stored labels %s (%v) are not the label set of any stream of the request %+v", sp.Name, trunc(doc, 160), err, rp), rp)
+				}
+				a.r.Outcome("a2:foreign_doc")
+				return
+			}
+		}
+	}
 	for _, r := range out.Rows() {
 		if !have[fd{r.FP, r.TsNs / 1e9 / 86400}] {
 			a.found["no_series_row_for_sample_day:"+sp.Name]++
@@ -543,6 +635,38 @@ func (a *partA) evalA2(sp *speaker, rp replayA2) {
 		}
 	}
 	a.r.Outcome("a2:indexed")
+}
+
+// aloneFP: the fingerprint the speaker's parser gives this label list when it is the only stream and has one entry.
+func (a *partA) aloneFP(sp *speaker, labels []ir.Label) (uint64, bool) {
+	key := sp.Name + "|" + fmt.Sprintf("%q", labels)
+	if a.alone == nil {
+		a.alone = map[string]uint64{}
+	}
+	if fp, ok := a.alone[key]; ok {
+		return fp, true
+	}
+	e := ir.Entry{TsNs: 1704888000 * 1e9, Line: "l", Type: ir.TypeLog}
+	metric := !strings.Contains(sp.P.Kinds, "l")
+	for _, l := range labels {
+		if sp.P == ir.Influx && l.Name == "__name__" {
+			metric = true
+		}
+	}
+	if metric {
+		e = ir.Entry{TsNs: 1704888000 * 1e9, Value: 1, Type: ir.TypeMetric}
+	}
+	body, err := sp.P.Render([]ir.Stream{{Labels: labels, Entries: []ir.Entry{e}}}, sp.Opt)
+	if err != nil {
+		return 0, false
+	}
+	out := sp.P.Parse(body, sp.Opt, nil)
+	rows := out.Rows()
+	if out.Err != nil || len(rows) != 1 {
+		return 0, false
+	}
+	a.alone[key] = rows[0].FP
+	return rows[0].FP, true
 }
 
 func runPartA2(r *ev.Run, a *partA) {
@@ -573,6 +697,28 @@ func runPartA2(r *ev.Run, a *partA) {
 						}
 						a.evalA2(sp, replayA2{Part: "a2", Speaker: sp.Name, Reorder: ro,
 							Streams: [][]int{append([]int{0}, l1...), append([]int{second}, l2...)}})
+					}
+				}
+			}
+		}
+		// names the code treats specially, first / middle / last among the plain labels, in shapes that make the decoder
+		// call the row builder more than once for the label set
+		if sp.P != ir.DatadogLogs && sp.P != ir.DatadogSeries {
+			for _, name := range a.special {
+				if sp.P == ir.Influx && (name == "measurement" || name == "__name__") {
+					continue
+				}
+				for pos := 0; pos < 3; pos++ {
+					for _, st := range [][][]int{{{0, 0}}, {{0, 0, 3}}, {{0, 0}, {0, 3}}, {{0, 1}, {1, 1}, {0, 2}}} {
+						a.evalA2(sp, replayA2{Part: "a2", Speaker: sp.Name, Streams: st, Special: name, Pos: pos})
+					}
+					for _, sk := range [][]int{{1500, 1200}, {2001, 500}, {1001, 1}} {
+						a.evalA2(sp, replayA2{Part: "a2", Speaker: sp.Name, Split: sk, Special: name, Pos: pos})
+					}
+					if sp.P == ir.Influx {
+						for _, f := range []int{1, 2, 3} {
+							a.evalA2(sp, replayA2{Part: "a2", Speaker: sp.Name, Fields: f, Special: name, Pos: pos})
+						}
 					}
 				}
 			}
